@@ -287,6 +287,8 @@ def refresh_total(ctx):
     n = 0
     for fb in F.family(rb.key):
         for e in lib.error_exits(fb):
+            if e.kind == 'relay':
+                continue
             n += 1
             if e.kind == 'explicit':
                 ctx.bad(rb.key, 'explicit %s' % e.desc, 'refresh fails with an explicit %s (line %d): refreshing an issued key must '
